@@ -35,6 +35,22 @@ paths:
         "204": {description: ok}
 `
 
+// a document whose templates could capture the spec file's path
+const c13DocVar = `openapi: 3.0.0
+info: {title: t, version: "1"}
+paths:
+  /{id}:
+    parameters: [{name: id, in: path, required: true, schema: {type: string}}]
+    get:
+      responses:
+        "204": {description: ok}
+  /{a}/{b}:
+    parameters: [{name: a, in: path, required: true, schema: {type: string}}, {name: b, in: path, required: true, schema: {type: string}}]
+    get:
+      responses:
+        "204": {description: ok}
+`
+
 func hx(s string) string {
 	if s == "" {
 		return "-"
@@ -274,7 +290,11 @@ func runC13(c runCfg) error {
 		var pkgs []*scratch.Pkg
 		for i, ct := range contents {
 			base := []string{"", "/v1", "/api/"}[i%3]
-			pkgs = append(pkgs, &scratch.Pkg{Name: fmt.Sprintf("s%03d", i), Doc: []byte(c13Doc),
+			doc := c13Doc
+			if i%4 == 3 {
+				doc = c13DocVar // (only the installed-handler requests are made against it: see below)
+			}
+			pkgs = append(pkgs, &scratch.Pkg{Name: fmt.Sprintf("s%03d", i), Doc: []byte(doc),
 				Opts: gen.Options{API: true, DoNotEdit: true, SpecRaw: []byte(ct), BasePath: base, SpecName: "openapi.yaml"}})
 		}
 		root, err := os.MkdirTemp(c.Out, "mod")
@@ -300,6 +320,9 @@ func runC13(c runCfg) error {
 			base := strings.TrimRight(p.Opts.BasePath, "/")
 			for mw := 0; mw <= 3; mw++ {
 				for sf := 0; sf <= 1; sf++ {
+					if sf == 0 && string(p.Doc) == c13DocVar {
+						continue // (without the spec-file handler the path is an ordinary request for /{id}: C03's business)
+					}
 					slines = append(slines, fmt.Sprintf("C13 srv %s %d %d", hx(contents[i]), mw, sf))
 					send = append(send, fmt.Sprintf("%s REQ mw=%d,sf=%d GET %s - -", p.Name, mw, sf, hx(base+"/openapi.yaml")))
 				}
